@@ -777,6 +777,18 @@ func (g *Gen) burst() []*Step {
 	k1, k2 := g.Keys[0], g.Keys[1%len(g.Keys)]
 	x, y := VStr(g.elemP[0]), VStr(g.elemP[1])
 	switch {
+	case g.Prof.Families["list"] > 0 && g.chance(0.12):
+		// midpoint exhaustion: inserts at one pivot halve the gap between two positions until the
+		// midpoint coincides with a neighbour (after 52 halvings); from then on the insert is
+		// refused with nothing changed, and everything before it must still be in order
+		ops = []*Op{KDelete(k1), LPushBack(k1, x), LPushBack(k1, y)}
+		// (towards the position 1.0 of the second element: next to 0 the halving could go on for
+		// a thousand steps)
+		for i := 0; i < 56; i++ {
+			ops = append(ops, LInsertBefore(k1, y, VStr(fmt.Sprintf("m%d", i))))
+		}
+		ops = append(ops, LInsertAfter(k1, x, VStr("after-first")))
+		ops = append(ops, LRange(k1, 0, -1), LSet(k1, 3, VStr("set")), LPopBack(k1), LLen(k1), LRange(k1, 0, 5))
 	case g.Prof.Families["list"] > 0 && g.chance(0.5):
 		ops = []*Op{LPushFront(k1, x), LPushBack(k1, x), LPushFront(k1, y), LPushFront(k1, x), LPushBack(k1, y),
 			LDeleteBack(k1, x, 1+g.pick(2)), LRange(k1, 0, -1), LDeleteFront(k1, x, 1), LRange(k1, 0, -1)}
